@@ -716,6 +716,74 @@ func c12Script(rng *rand.Rand, cc net.Conn, cl *c12Client) {
 	}
 }
 
+// c12BarrierRounds: simultaneous ServeConn arrivals.  In every round k = Concurrency+1 .. Concurrency+2
+// goroutines are released together by a spin barrier and call ServeConn on connections whose request
+// is already waiting.  A handler blocks until the round has been judged, so the connections admitted in
+// a round are all served at the same time: admitted > Concurrency is a violation, exactly.  A round is
+// judged when every call is decided (its handler was entered, or it returned ErrConcurrencyLimit);
+// waiting for that is bounded, and an expired bound is an infrastructure problem, not a verdict.
+func c12BarrierRounds(rounds, conc int) (nrounds int, key, detail string) {
+	var entered atomic.Int32
+	var release atomic.Pointer[chan struct{}]
+	s := &Server{Concurrency: conc, Logger: c12NopLogger{}, Handler: func(ctx *RequestCtx) {
+		entered.Add(1)
+		<-*release.Load()
+		ctx.SetBodyString("ok")
+	}}
+	for r := 1; r <= rounds; r++ {
+		k := conc + 1 + r%2
+		rel := make(chan struct{})
+		release.Store(&rel)
+		entered.Store(0)
+		var rejected, returned atomic.Int32
+		var gate atomic.Int32
+		var wg sync.WaitGroup
+		clients := make([]net.Conn, k)
+		for i := 0; i < k; i++ {
+			pcs := fasthttputil.NewPipeConns()
+			clients[i] = pcs.Conn2()
+			clients[i].Write([]byte("GET / HTTP/1.1\r\nHost: x\r\nConnection: close\r\n\r\n"))
+			wg.Add(1)
+			go func(sc net.Conn) {
+				defer wg.Done()
+				gate.Add(1)
+				for gate.Load() < int32(k)+1 { // spin: all callers leave the barrier together
+				}
+				if err := s.ServeConn(sc); err == ErrConcurrencyLimit {
+					rejected.Add(1)
+				}
+				returned.Add(1)
+			}(pcs.Conn1())
+		}
+		for gate.Load() < int32(k) {
+			runtime.Gosched()
+		}
+		gate.Add(1) // go
+		dl := time.Now().Add(20 * time.Second)
+		for int(entered.Load()+rejected.Load()) < k {
+			if time.Now().After(dl) {
+				vfInfra(fmt.Sprintf("c12 barrier: round %d not decided: entered=%d rejected=%d of %d", r, entered.Load(), rejected.Load(), k))
+				close(rel)
+				return r, "", ""
+			}
+			runtime.Gosched()
+		}
+		admitted := int(entered.Load())
+		close(rel)
+		for _, c := range clients {
+			c.SetReadDeadline(time.Now().Add(20 * time.Second))
+			io.Copy(io.Discard, c)
+			c.Close()
+		}
+		wg.Wait()
+		if admitted > conc {
+			return r, fmt.Sprintf("simultaneous-serveconn conc=%d", conc),
+				fmt.Sprintf("round %d: %d ServeConn calls arriving together were all admitted and served at the same time with Concurrency=%d", r, admitted, conc)
+		}
+	}
+	return rounds, "", ""
+}
+
 func TestVerifC12Limits(t *testing.T) {
 	vfOpen(t)
 	rng := vfRand()
@@ -759,6 +827,16 @@ func TestVerifC12Limits(t *testing.T) {
 			break
 		}
 	}
-	vfStat(nexec, nexec, vfRec{"events": total, "trace_files": strings.Join(files, ",")})
+	// simultaneous arrivals at the ServeConn admission test
+	nb := vfEnvInt("VERIF_C12_BARRIER", 600)
+	barrier := 0
+	for _, conc := range []int{1, 2} {
+		n, key, detail := c12BarrierRounds(nb, conc)
+		barrier += n
+		if key != "" {
+			vfViol("direct:"+key, detail, vfRec{"rounds": n, "conc": conc})
+		}
+	}
+	vfStat(nexec+barrier, nexec+barrier, vfRec{"events": total, "barrier_rounds": barrier, "trace_files": strings.Join(files, ",")})
 	vfDone()
 }
